@@ -131,13 +131,13 @@ def family_c03(sig, api, rnd, n_per_type, nfacts, nvariants):
             # element creation order: every element is created only when first needed (per type the
             # order of creation - and with it the meaning of the handles - stays the same); elements
             # that no fact mentions are created at the very end, after a close
-            members.append(lazy_creation(sig, pre, body, rnd) + [dict(fin)])
+            members.append(lazy_creation(sig, pre, body, rnd, always_close=(k == 1)) + [dict(fin)])
         else:
             members.append(pre + body + [dict(fin)])
     return members
 
 
-def lazy_creation(sig, pre, body, rnd):
+def lazy_creation(sig, pre, body, rnd, always_close=False):
     queue = {}
     for st in pre:
         if st["op"] != "new":
@@ -159,7 +159,7 @@ def lazy_creation(sig, pre, body, rnd):
         out.append(st)
     rest = [st for t in sorted(queue) for st in queue[t]]
     if rest:
-        if out and out[-1]["op"] != "close" and rnd.random() < 0.7:
+        if out and out[-1]["op"] != "close" and (always_close or rnd.random() < 0.7):
             out.append({"op": "close"})
         out += rest
     return out
